@@ -15,6 +15,8 @@ import math
 
 import numpy as np
 
+from vf import tensorenv
+
 PROPERTY = "C17"
 LEVEL = "exploration"
 ANCHOR_FILES = ["quantem/core/utils/imaging_utils.py", "quantem/diffractive_imaging/direct_ptycho_utils.py"]
@@ -34,7 +36,7 @@ ASSUMPTIONS = [
     "argument tensors (phase, mask, bf data/masks) are compared with snapshots after every call; the depth of the union-find forest is read by a wrapper on _final_offsets (informational: skipped and listed in hooks_missing if that name disappears)",
     "the Poisson method is outside the exactness claim: executed and recorded (deviation from the generating field), not judged",
 ]
-BUDGET = {"quick": {"soft_s": 150}, "thorough": {"soft_s": 900}}
+BUDGET = {"quick": {"soft_s": 240}, "thorough": {"soft_s": 900}}
 MIN_EVALUATIONS = {"quick": 2000, "thorough": 12000}
 REQUIRED_COUNTERS = ["eval:not_constant_on_region", "eval:non_integer_multiple", "eval:unwrapped_input_changed", "eval:bf_not_constant_on_region", "eval:argument_modified"]
 
@@ -45,6 +47,25 @@ PATH_MASKS = ("serpentine", "spiral")  # one-pixel-wide paths: long chains, deep
 TARGETS = [0.5, 1.0, 2.0, 2.8]
 SIZES = ["tiny", "small", "medium", "large", "long"]
 EPS32 = float(np.finfo(np.float32).eps)
+EPS64 = float(np.finfo(np.float64).eps)
+
+
+def _env(ctx):
+    return ctx.state.get("_env", {"state": "default", "layout": "contiguous", "input_dtype": "float32"})
+
+
+def _fields(ctx):
+    return dict(_env(ctx))
+
+
+def _in_dtype(ctx):
+    return np.float64 if _env(ctx)["input_dtype"] == "float64" else np.float32
+
+
+def _float64_precision(ctx):
+    """the code keeps its wrap counts in torch's default dtype: float64 results are owed only to float64 input under a float64 default."""
+    e = _env(ctx)
+    return e["state"] == "float64_default" and e["input_dtype"] == "float64"
 
 
 def plan(tier, seed):
@@ -55,7 +76,7 @@ def plan(tier, seed):
     def size():
         return SIZES[int(rng.choice(5, p=[0.12, 0.30, 0.30, 0.13, 0.15]))]
 
-    reps = 10 if quick else 120
+    reps = 8 if quick else 120
     for fam, mask, wrap in itertools.product(FAMILIES, MASKS, [True, False]):
         if wrap and mask == "none" and fam not in PERIODIC:
             continue  # the seam edges would be the only large differences: scaled to a trivial field
@@ -390,8 +411,10 @@ def _outside(rng, arr, mask, mode):
     return out
 
 
-def _bound(*arrays):
+def _bound(ctx, *arrays):
     amp = max([2 * np.pi] + [float(np.max(np.abs(a))) for a in arrays if np.size(a)])
+    if _float64_precision(ctx):
+        return max(1e-10, 512 * EPS64 * amp)
     return max(1e-4, 512 * EPS32 * amp)
 
 
@@ -437,16 +460,26 @@ def _call_unwrap(ctx, arr32, mask, wrap, method="reliability-sorting", pass_mask
     """one call of the public function; the caller's tensors are compared with snapshots afterwards.
     `tensor`: reuse this caller-owned tensor object (its current content must equal arr32)."""
     torch, iu = ctx.state["torch"], ctx.state["iu"]
-    t = tensor if tensor is not None else torch.from_numpy(np.array(arr32, dtype=np.float32, order="C"))
-    mk = np.array(mask, dtype=bool, order="C")
-    m = torch.from_numpy(mk) if pass_mask else None
+    lay, lrng = _env(ctx)["layout"], ctx.state["_lrng"]
+    if lay == "expanded":
+        lay = "window"  # (a phase map is not a stack of identical rows)
+    t = tensor if tensor is not None else _phase_tensor(ctx, arr32)
+    m = tensorenv.relayout(torch, np.array(mask, dtype=bool), lay, lrng) if pass_mask else None
     out = iu.unwrap_phase_2d_torch(t, method=method, mask=m, wrap_around=wrap)
     if method == "reliability-sorting":
-        f = dict(common or {})
-        ctx.check(np.array_equal(t.detach().cpu().numpy(), arr32, equal_nan=True), "argument_modified", lambda: "unwrap_phase_2d_torch changed the caller's phase tensor in place (%d of %d samples, mask passed: %s)" % (int(np.sum(t.detach().cpu().numpy() != arr32)), arr32.size, pass_mask), function="unwrap_phase_2d_torch", argument="phi_wrapped", **f)
+        f = dict(common or _fields(ctx))
+        now = tensorenv.values(t)
+        ctx.check(np.array_equal(now, arr32, equal_nan=True), "argument_modified", lambda: "unwrap_phase_2d_torch changed the caller's phase tensor in place (%d of %d samples, mask passed: %s)" % (int(np.sum(now != arr32)), arr32.size, pass_mask), function="unwrap_phase_2d_torch", argument="phi_wrapped", **f)
         if pass_mask:
-            ctx.check(np.array_equal(mk, mask), "argument_modified", "unwrap_phase_2d_torch changed the caller's mask in place", function="unwrap_phase_2d_torch", argument="mask", **f)
+            ctx.check(np.array_equal(tensorenv.values(m), mask), "argument_modified", "unwrap_phase_2d_torch changed the caller's mask in place", function="unwrap_phase_2d_torch", argument="mask", **f)
     return out
+
+
+def _phase_tensor(ctx, arr):
+    """the caller's phase tensor in this case's memory layout / dtype / grad setting."""
+    lay = _env(ctx)["layout"]
+    t = tensorenv.relayout(ctx.state["torch"], arr, "window" if lay == "expanded" else lay, ctx.state["_lrng"])
+    return tensorenv.want_grad(t, _env(ctx)["state"])
 
 
 def _check_output(ctx, out, shape, common):
@@ -461,15 +494,16 @@ def _run_itoh(spec, idx, ctx, unwrapped=False):
     H, W = phi.shape
     wrap = bool(spec["wrap"])
     src = phi if unwrapped else _wrap(phi)
-    inp = _outside(rng, src, mask, int(rng.integers(0, 2)) if spec["mask"] != "none" else 2).astype(np.float32)
+    inp = _outside(rng, src, mask, int(rng.integers(0, 2)) if spec["mask"] != "none" else 2).astype(_in_dtype(ctx))
     pass_mask = spec["mask"] != "none" or rng.random() < 0.3
     common = {"family": spec["family"], "mask_class": spec["mask"], "wrap_around": wrap, "size_class": _size_class(H, W), "regions": _nreg_class(n), "input": "unwrapped" if unwrapped else "wrapped"}
+    common.update(_fields(ctx))
     out_t = _call_unwrap(ctx, inp, mask, wrap, pass_mask=pass_mask, common=common)
     ok, out = _check_output(ctx, out_t, (H, W), common)
     if not ok:
         return
     ctx.check(bool(np.isfinite(out[mask]).all()), "non_finite_output", "non-finite values inside the mask", **common)
-    bound = _bound(phi[mask], out[mask])
+    bound = _bound(ctx, phi[mask], out[mask])
     what = "%dx%d %s mask=%s wrap_around=%s target=%.1f" % (H, W, spec["family"], spec["mask"], wrap, spec["target"])
     inp64 = inp.astype(np.float64)
     if unwrapped:
@@ -507,14 +541,15 @@ def _run_any(spec, idx, ctx):
         a = _wrap(a)
     else:  # steep ramp: aliased, violates the premise
         a = _wrap(rng.uniform(3.3, 6.0) * x + rng.uniform(-6, 6) * y)
-    inp = a.astype(np.float32)
+    inp = a.astype(_in_dtype(ctx))
     common = {"family": kind, "mask_class": spec["mask"], "wrap_around": wrap, "size_class": _size_class(H, W), "regions": "n/a", "input": "arbitrary"}
+    common.update(_fields(ctx))
     out_t = _call_unwrap(ctx, inp, mask, wrap, pass_mask=spec["mask"] != "none", common=common)
     ok, out = _check_output(ctx, out_t, (H, W), common)
     if not ok:
         return
     ctx.check(bool(np.isfinite(out[mask]).all()), "non_finite_output", "non-finite values inside the mask", **common)
-    bound = _bound(inp[mask], out[mask])
+    bound = _bound(ctx, inp[mask], out[mask])
     wint = _judge_integer(ctx, out, inp.astype(np.float64), mask, bound, common, "%dx%d %s mask=%s wrap_around=%s" % (H, W, kind, spec["mask"], wrap))
     moved = bool(np.ptp((out - inp)[mask]) > 1.0) if mask.sum() > 1 else False
     ctx.nontrivial(("any", kind, spec["mask"], wrap, _size_class(H, W)), moved)
@@ -555,9 +590,14 @@ def _run_bf(spec, idx, ctx):
     phase_in = np.where(m, phi, rng.uniform(-np.pi, np.pi, size=(H, W)))
     data = (amp * np.exp(1j * phase_in))[bf].astype(np.complex64)
     common = {"family": spec["family"], "mask_class": spec["mask"], "wrap_around": "default" if periodic else False, "size_class": _size_class(H, W), "regions": _nreg_class(n), "two_pass": bool(spec["two_pass"])}
-    a_data, a_mask, a_bf = data.copy(), np.array(m[bf]), bf.copy()
-    out_t = dpu.unwrap_bf_overlap_phase_torch(torch.from_numpy(a_data), torch.from_numpy(a_mask), torch.from_numpy(a_bf), two_pass=bool(spec["two_pass"]), **kwargs)
-    for name, before, after in (("complex_data_bf", data, a_data), ("mask_bf", m[bf], a_mask), ("bf_mask", bf, a_bf)):
+    common.update(_fields(ctx))
+    lay = _env(ctx)["layout"]
+    lay = "window" if lay == "expanded" else lay
+    t_data = tensorenv.relayout(torch, data, lay, ctx.state["_lrng"])
+    t_mask = tensorenv.relayout(torch, np.array(m[bf]), lay, ctx.state["_lrng"])
+    t_bf = tensorenv.relayout(torch, bf, lay, ctx.state["_lrng"])
+    out_t = dpu.unwrap_bf_overlap_phase_torch(t_data, t_mask, t_bf, two_pass=bool(spec["two_pass"]), **kwargs)
+    for name, before, after in (("complex_data_bf", data, tensorenv.values(t_data)), ("mask_bf", m[bf], tensorenv.values(t_mask)), ("bf_mask", bf, tensorenv.values(t_bf))):
         ctx.check(np.array_equal(before, after), "argument_modified", "unwrap_bf_overlap_phase_torch changed its argument %s in place" % name, function="unwrap_bf_overlap_phase_torch", argument=name, **common)
     ok = ctx.check(tuple(out_t.shape) == (int(bf.sum()),), "shape_changed", "output shape %s, expected (%d,)" % (tuple(out_t.shape), int(bf.sum())), **common)
     if not ok:
@@ -565,7 +605,7 @@ def _run_bf(spec, idx, ctx):
     out = np.zeros((H, W))
     out[bf] = out_t.detach().cpu().numpy().astype(np.float64)
     ctx.check(bool(np.isfinite(out[m]).all()), "non_finite_output", "non-finite values inside the mask", **common)
-    bound = _bound(phi[m], out[m])
+    bound = _bound(ctx, phi[m], out[m])
     what = "bf %dx%d %s mask=%s two_pass=%s wrap_around=%s" % (H, W, spec["family"], spec["mask"], spec["two_pass"], spec["wrap"])
     worst = _judge_regions(ctx, "bf_not_constant_on_region", out, phi, lab, n, bound, common, what)
     k = np.round(phi / (2 * np.pi))
@@ -582,8 +622,8 @@ def _run_reuse(spec, idx, ctx):
     phi, full, _, _ = _scene(rng, spec)  # mask class "none": the whole grid, one region, one offset
     H, W = phi.shape
     w0 = bool(spec["wrap"])
-    inp = _wrap(phi).astype(np.float32)
-    tensor = torch.from_numpy(inp.copy())  # the caller's tensor, never re-created below
+    inp = _wrap(phi).astype(_in_dtype(ctx))
+    tensor = _phase_tensor(ctx, inp)  # the caller's tensor, never re-created below
     calls = []
     for k in range(int(rng.integers(2, 4))):
         cls = ["blob", "holes", "multi", "singles", "diagonal", "serpentine", "spiral"][int(rng.integers(7))]
@@ -593,11 +633,12 @@ def _run_reuse(spec, idx, ctx):
     for k, (cls, mask, pass_mask, wrap) in enumerate(calls):
         lab, n = label_regions(mask, wrap)
         common = {"family": spec["family"], "mask_class": cls, "wrap_around": wrap, "size_class": _size_class(H, W), "regions": _nreg_class(n), "input": "wrapped", "call": "first" if k == 0 else "reused_tensor"}
+        common.update(_fields(ctx))
         out_t = _call_unwrap(ctx, inp, mask, wrap, pass_mask=pass_mask, tensor=tensor, common=common)
         ok, out = _check_output(ctx, out_t, (H, W), common)
         if not ok:
             return
-        bound = _bound(phi[mask], out[mask])
+        bound = _bound(ctx, phi[mask], out[mask])
         what = "%dx%d %s call %d of %d on the same tensor, mask=%s wrap_around=%s target=%.1f" % (H, W, spec["family"], k + 1, len(calls), cls, wrap, spec["target"])
         worst = max(worst, _judge_regions(ctx, "not_constant_on_region", out, phi, lab, n, bound, common, what))
         _judge_integer(ctx, out, inp.astype(np.float64), mask, bound, common, what)
@@ -628,18 +669,30 @@ def _run_poisson(spec, idx, ctx):
 def run_case(spec, idx, ctx):
     k = spec["kind"]
     ctx.state["depth"] = 0
-    if k == "itoh":
-        _run_itoh(spec, idx, ctx)
-    elif k == "unwrapped":
-        _run_itoh(spec, idx, ctx, unwrapped=True)
-    elif k == "any":
-        _run_any(spec, idx, ctx)
-    elif k == "bf":
-        _run_bf(spec, idx, ctx)
-    elif k == "reuse":
-        _run_reuse(spec, idx, ctx)
-    else:
-        _run_poisson(spec, idx, ctx)
+    erng = ctx.rng(idx, 7)
+    state = tensorenv.pick_state(erng, 0.65) if k != "poisson" else "default"
+    layout = tensorenv.pick_layout(erng, 0.6, allow_expanded=False) if k != "poisson" else "contiguous"
+    # float64 phase maps: always interesting under a float64 default (judged at float64 precision), occasionally otherwise
+    r = erng.random()
+    in64 = (state == "float64_default" and r < 0.85) or (state != "float64_default" and r < 0.08)
+    ctx.state["_env"] = {"state": state, "layout": layout, "input_dtype": "float64" if in64 and k != "bf" else "float32"}
+    ctx.state["_lrng"] = ctx.rng(idx, 8)
+    ctx.count("state:" + state)
+    ctx.count("layout:" + layout)
+    ctx.count("input_dtype:" + ctx.state["_env"]["input_dtype"])
+    with tensorenv.global_state(ctx.state["torch"], state):
+        if k == "itoh":
+            _run_itoh(spec, idx, ctx)
+        elif k == "unwrapped":
+            _run_itoh(spec, idx, ctx, unwrapped=True)
+        elif k == "any":
+            _run_any(spec, idx, ctx)
+        elif k == "bf":
+            _run_bf(spec, idx, ctx)
+        elif k == "reuse":
+            _run_reuse(spec, idx, ctx)
+        else:
+            _run_poisson(spec, idx, ctx)
 
 
 def summarize(all_cases, counters, extras):
